@@ -102,6 +102,8 @@ type Sched struct {
 	MaxSteps  int
 	Overrun   bool     // MaxSteps exceeded
 	Panics    []string // panics that escaped a controlled thread
+	// DeadlockInfo describes the lock-waiting threads of a detected deadlock.
+	DeadlockInfo []string
 	StepsRun  int
 	PointsHit int
 
@@ -122,10 +124,17 @@ var S *Sched
 
 var (
 	confMu   stdsync.Mutex
-	conflict = map[uintptr]struct{}{}
+	conflict = map[string]struct{}{} // call sites (file:line(func)) that are branch points
+	pcKey    = map[uintptr]string{}
 	confGrew bool
 	// AllPoints disables conflict reduction: every point parks.
 	AllPoints bool
+	// DeviateTo, when non-nil, restricts costly (non-default) choices to the
+	// threads with these names.
+	DeviateTo []string
+	// AllFreeOnBlock restores classic preemption bounding: when the running
+	// thread blocks every enabled thread is a zero-cost choice.
+	AllFreeOnBlock bool
 	// Focus, when non-nil, restricts branch points to call sites whose
 	// function name contains one of the substrings (declared under-approximation).
 	Focus      []string
@@ -144,38 +153,47 @@ func ConflictGrew() bool {
 	return g
 }
 
-// ConflictPCs returns the learned branch call sites (sorted PCs).
-func ConflictPCs() []uint64 {
+// ConflictKeys returns the learned branch call sites (sorted file:line(func)).
+func ConflictKeys() []string {
 	confMu.Lock()
 	defer confMu.Unlock()
-	out := make([]uint64, 0, len(conflict))
-	for pc := range conflict {
-		out = append(out, uint64(pc))
-	}
-	sort.Slice(out, func(i, j int) bool { return out[i] < out[j] })
-	return out
-}
-
-// LoadConflicts preloads branch call sites (same binary => same PCs).
-func LoadConflicts(pcs []uint64) {
-	confMu.Lock()
-	defer confMu.Unlock()
-	for _, pc := range pcs {
-		conflict[uintptr(pc)] = struct{}{}
-	}
-}
-
-// ConflictSites lists the learned branch call sites as file:line.
-func ConflictSites() []string {
-	confMu.Lock()
-	defer confMu.Unlock()
-	var out []string
-	for pc := range conflict {
-		out = append(out, pcLabel(pc))
+	out := make([]string, 0, len(conflict))
+	for k := range conflict {
+		out = append(out, k)
 	}
 	sort.Strings(out)
 	return out
 }
+
+// LoadConflicts preloads branch call sites.
+func LoadConflicts(keys []string) {
+	confMu.Lock()
+	defer confMu.Unlock()
+	for _, k := range keys {
+		conflict[k] = struct{}{}
+	}
+}
+
+// ResetConflicts forgets all learned call sites (replay starts from the
+// recorded set).
+func ResetConflicts() {
+	confMu.Lock()
+	defer confMu.Unlock()
+	conflict = map[string]struct{}{}
+}
+
+// keyOf caches the label of a PC. Caller holds confMu.
+func keyOf(pc uintptr) string {
+	k, ok := pcKey[pc]
+	if !ok {
+		k = pcLabel(pc)
+		pcKey[pc] = k
+	}
+	return k
+}
+
+// ConflictSites lists the learned branch call sites.
+func ConflictSites() []string { return ConflictKeys() }
 
 func pcLabel(pc uintptr) string {
 	if pc == 0 {
@@ -262,8 +280,9 @@ func (s *Sched) record(t *Thread, kind OpKind, obj unsafe.Pointer, pc uintptr) b
 	defer confMu.Unlock()
 	if conflicting {
 		for p := range a.pcs {
-			if _, ok := conflict[p]; !ok {
-				conflict[p] = struct{}{}
+			k := keyOf(p)
+			if _, ok := conflict[k]; !ok {
+				conflict[k] = struct{}{}
 				confGrew = true
 			}
 		}
@@ -271,7 +290,7 @@ func (s *Sched) record(t *Thread, kind OpKind, obj unsafe.Pointer, pc uintptr) b
 	if AllPoints {
 		return true
 	}
-	_, ok := conflict[pc]
+	_, ok := conflict[keyOf(pc)]
 	return ok && inFocus(pc)
 }
 
@@ -316,6 +335,41 @@ func (s *Sched) Held() []string {
 		}
 	}
 	sort.Strings(out)
+	return out
+}
+
+// describeDeadlock fills DeadlockInfo: every lock-waiting thread, the lock's
+// last acquisition site and holder. Caller holds s.mu.
+func (s *Sched) describeDeadlock() {
+	s.DeadlockInfo = nil
+	for _, t := range s.threads {
+		if t.state != stParked || (t.kind != OpLock && t.kind != OpRLock) {
+			continue
+		}
+		m := s.mus[t.obj]
+		holder := "?"
+		if m != nil {
+			if m.writer != 0 {
+				holder = s.threads[m.writer-1].name
+			} else if m.readers > 0 {
+				holder = fmt.Sprintf("%d reader(s)", m.readers)
+			}
+			holder += " (acquired at " + pcLabel(m.pc) + ")"
+		}
+		s.DeadlockInfo = append(s.DeadlockInfo, fmt.Sprintf("%s waits for %s at %s held by %s", t.name, t.kind, pcLabel(t.pc), holder))
+	}
+}
+
+// Alive lists the controlled threads that have not finished (call after Run).
+func (s *Sched) Alive() []string {
+	s.mu.Lock()
+	defer s.mu.Unlock()
+	var out []string
+	for _, t := range s.threads {
+		if t.state != stDone {
+			out = append(out, t.name)
+		}
+	}
 	return out
 }
 
@@ -474,8 +528,26 @@ func spawn(name string, fn func(), daemon bool) {
 		<-t.resume
 		defer func() {
 			if p := recover(); p != nil {
+				// keep the innermost non-runtime frames for the report
+				var pcs [24]uintptr
+				n := runtime.Callers(3, pcs[:])
+				var where []string
+				fr := runtime.CallersFrames(pcs[:n])
+				for {
+					f, more := fr.Next()
+					if !strings.HasPrefix(f.Function, "runtime.") && len(where) < 4 {
+						file := f.File
+						if i := strings.LastIndex(file, "/"); i >= 0 {
+							file = file[i+1:]
+						}
+						where = append(where, fmt.Sprintf("%s:%d", file, f.Line))
+					}
+					if !more {
+						break
+					}
+				}
 				s.mu.Lock()
-				s.Panics = append(s.Panics, fmt.Sprintf("%s: %v", t.name, p))
+				s.Panics = append(s.Panics, fmt.Sprintf("%s: %v at %v", t.name, p, where))
 				s.mu.Unlock()
 			}
 			s.mu.Lock()
@@ -520,6 +592,11 @@ func Run(prefix []int, body func()) *Sched {
 	s.cur = nil
 	for _, t := range s.threads {
 		if t.state == stParked {
+			if s.Deadlock && (t.kind == OpLock || t.kind == OpRLock) && !s.lockFree(t.kind, t.obj) {
+				// a thread of a detected deadlock stays parked (durably blocked):
+				// released, it would block on the real mutex for good
+				continue
+			}
 			t.state = stRunning
 			close(t.resume)
 		}
@@ -579,6 +656,11 @@ func (s *Sched) loop() {
 			s.mu.Unlock()
 			if !anyNative {
 				s.Deadlock = anyLockWait
+				if anyLockWait {
+					s.mu.Lock()
+					s.describeDeadlock()
+					s.mu.Unlock()
+				}
 				return
 			}
 			// only timers (or nothing) can make progress: let fake time advance
@@ -595,6 +677,9 @@ func (s *Sched) loop() {
 				if t.state == stParked {
 					s.Deadlock = true
 				}
+			}
+			if s.Deadlock {
+				s.describeDeadlock()
 			}
 			s.mu.Unlock()
 			return
@@ -617,7 +702,14 @@ func (s *Sched) loop() {
 		free := len(cont)
 		ordered := en
 		if free == 0 {
-			free = len(en)
+			// a true blocking switch (or threads woken by the clock): with many
+			// service goroutines "every enabled thread is free" explodes, so
+			// only the canonical successor (lowest thread id) is free and any
+			// other choice costs one deviation
+			free = 1
+			if AllFreeOnBlock {
+				free = len(en)
+			}
 		} else {
 			ordered = append([]*Thread{}, cont...)
 			for _, t := range en {
@@ -631,6 +723,25 @@ func (s *Sched) loop() {
 					ordered = append(ordered, t)
 				}
 			}
+		}
+		if !AllFreeOnBlock && free > 1 {
+			// several threads woken by the last step: the first one is the
+			// default, running any other first costs a deviation
+			free = 1
+		}
+		if DeviateTo != nil && len(ordered) > free {
+			// declared under-approximation: costly switches only to the named
+			// (harness) threads; zero-cost continuations are always kept
+			kept := ordered[:free:free]
+			for _, t := range ordered[free:] {
+				for _, n := range DeviateTo {
+					if t.name == n || (strings.HasSuffix(n, "*") && strings.Contains(t.name, strings.TrimSuffix(n, "*"))) {
+						kept = append(kept, t)
+						break
+					}
+				}
+			}
+			ordered = kept
 		}
 		choice := 0
 		if len(ordered) > 1 {
